@@ -35,7 +35,7 @@ var c06Check = &impCheck{
 	sys: newRawSystem("NewFilePath", "a.b/c", []string{"a.b/c", "a.b/c/", "x/d1", "y/d1", "fmt"}, map[string]string{"a.b/c/": "c", "x/d1": "d1", "y/d1": "d1"},
 		[]string{".", "d1"}, []int{0, imp.WrapperIndex("dictkey")}, true, "pkg"),
 	bfsDepth: [2]int{4, 5},
-	dev:      [2]int{3, 4},
+	dev:      [2]int{2, 4},
 	fams: []*family{
 		c06Family("path", "a.b/c", []string{"NewFilePath", "NewFilePathName"}, []string{"a.b/c/", "a.b/c/x", "x/a.b/c", "a.b/C", "b/c", "c"}),
 		c06Family("single", "c", []string{"NewFilePathName", "NewFilePath"}, []string{"c/", "a/c", "C1", "c/c"}),
